@@ -197,6 +197,47 @@ def run_concrete(case) -> list[tuple[str, str]]:
     return fails
 
 
+def run_modes(case: dict) -> list[tuple[str, str]]:
+    """The same five statements through Graph.serialize() in both modes, for every way of
+    asking for frames (inferred flow, explicit flow objects, small frame sizes): both outputs
+    are classified as written and parse to the same statements."""
+    import io  # noqa: PLC0415
+
+    import rdflib  # noqa: PLC0415
+    from pyjelly.parse.ioutils import get_options_and_frames  # noqa: PLC0415
+    from pyjelly.serialize import flows  # noqa: PLC0415
+
+    DR.ensure_rdflib_plugin()
+    seq = [(I(f"http://a/s{i}"), I("http://a/p"), L(str(i))) for i in range(5)]
+    results = {}
+    for dl in (True, False):
+        flow = None if case["flow"] == "inferred" else getattr(flows, case["flow"])(
+            **({"frame_size": case["frame_size"]} if "Flat" in case["flow"] or
+               "Bounded" in case["flow"] else {}))
+        try:
+            opts = DR.make_options("triple", (8, 2, 0), case["frame_size"], dl, case["logical"],
+                                   generalized=False, rdf_star=False, flow=flow)
+            data = DR.r_graph(seq).serialize(format="jelly", options=opts, encoding="utf-8")
+        except Exception as e:  # noqa: BLE001
+            results[dl] = ("refused", type(e).__name__)
+            continue
+        try:
+            popts, _ = get_options_and_frames(io.BytesIO(data))
+            got = sorted(DR.stmts_of(DR.r_read(data, "flat")), key=repr)
+            results[dl] = ("ok", bool(popts.params.delimited), got)
+        except Exception as e:  # noqa: BLE001
+            results[dl] = ("unreadable", f"{type(e).__name__}: {e}")
+    fails = []
+    want = sorted(T.norm_seq(seq), key=repr)
+    for dl, r in results.items():
+        if r[0] == "unreadable":
+            fails.append(("modes", f"written with delimited={dl}: cannot be read back: {r[1]}"))
+        elif r[0] == "ok" and (r[1] != dl or r[2] != want):
+            fails.append(("modes", f"written with delimited={dl}: classified delimited={r[1]}, "
+                                   f"{len(r[2])} of {len(want)} statements read back"))
+    return fails
+
+
 TARGET_FRAME_LENGTHS = (127, 128, 129, 16383, 16384, 16385, 16447, 16511, 16512,
                         2097151, 2097152, 2097153, 3000000)
 
@@ -263,7 +304,7 @@ def run(ctx) -> None:
     cjobs = [("concrete", (lens[i::16],)) for i in range(16)]
     tl = TARGET_FRAME_LENGTHS if not ctx.quick else TARGET_FRAME_LENGTHS[:-1]
     cjobs += [("concrete", (["targets", t],)) for t in tl]
-    merged = pool.merge(pool.pmap(_dispatch, jobs + cjobs))
+    merged = pool.merge(pool.pmap(_dispatch, jobs + cjobs + [("modes",)]))
     ctx.add(merged)
     both = [e["both"] for e in merged["extras"] if "both" in e]
     if both:
@@ -294,11 +335,29 @@ def run(ctx) -> None:
     )
 
 
+def modes_shard(job) -> dict:
+    acc = pool.Acc()
+    for flow in ("inferred", "ManualFrameFlow", "BoundedFrameFlow", "FlatTriplesFrameFlow",
+                 "GraphsFrameFlow"):
+        for fs in (1, 2, 3, 7, 250):
+            for lt in (0, 1, 3):
+                case = {"level": "modes", "flow": flow, "frame_size": fs, "logical": lt}
+                acc.evals += 1
+                acc.nontrivial += 1
+                for label, msg in run_modes(case):
+                    acc.violation({"level": "modes", "variant": label}, f"{msg} case={case}", case)
+    return acc.out()
+
+
 def _dispatch(job) -> dict:
+    if job[0] == "modes":
+        return modes_shard(job)
     return sweep_shard(job[1]) if job[0] == "sweep" else concrete_shard(job[1])
 
 
 def replay(case: dict) -> list:
+    if case["level"] == "modes":
+        return [m for _, m in run_modes(case)]
     if case["level"] == "header":
         from pyjelly.parse.ioutils import delimited_jelly_hint  # noqa: PLC0415
 
